@@ -130,7 +130,15 @@ def observe(case: Any, ptype: str, managers: list[PluginManager], models: list[M
                 got = mgr.get_plugin(ptype, method)  # type: ignore[arg-type]
             except ConfigError:
                 got = None
-            sup = mgr.is_supported(ptype, method)  # type: ignore[arg-type]
+            except Exception as exc:  # noqa: BLE001
+                check(False, "wrong-exception",
+                      f"step {step}, manager {m_i}: get_plugin({method!r}) raised {type(exc).__name__}({exc}) "
+                      "where an unsupported request must raise ConfigError", case)
+            try:
+                sup = mgr.is_supported(ptype, method)  # type: ignore[arg-type]
+            except Exception as exc:  # noqa: BLE001
+                check(False, "wrong-exception",
+                      f"step {step}, manager {m_i}: is_supported({method!r}) raised {type(exc).__name__}({exc})", case)
             check(got is exp, "lookup",
                   f"step {step}, manager {m_i}: get_plugin({method!r}) -> {got!r}, reference registry gives {exp!r} "
                   f"(order {[n for n, _ in model.entries]})", case)
